@@ -1706,4 +1706,205 @@ theorem superChain_complete {cs : List Cls} (hf : Forest cs) {xn a : Name} (hd :
         obtain ⟨s', hs', hi'⟩ := ih f l' hr
         exact ⟨s', by simp [hs'], hi'⟩
 
+
+theorem keepE_name (f : Flags) (e : Elem) : (keepE f e).name = e.name := by
+  by_cases hiq : f.iq = some false <;> by_cases hico : f.ico = some true <;>
+    simp [keepE, hiq, hico, stripOrigin, stripElemQuals]
+
+
+/-! ### the own qualifier declaration wins -/
+
+theorem hasQual_false_iff' {l : List Qual} {n : Name} :
+    hasQual l n = false ↔ ∀ y ∈ l, ieq y.name n = false := by
+  simp [hasQual]
+
+/-- "the own declaration wins": `cur` still holds, for the qualifier `q`, an entry with q's value -/
+def Holds (cur : List Qual) (q : Qual) : Prop := ∃ q' ∈ cur, ieq q'.name q.name = true ∧ q'.val = q.val ∧ q'.ty = q.ty
+
+theorem initQual_val {decls : List QDecl} {q q' : Qual} (h : initQual decls q = .ok q') :
+    q'.name = q.name ∧ q'.val = q.val ∧ q'.ty = q.ty := by
+  unfold initQual at h
+  cases hd : findDecl decls q.name with
+  | none => simp [hd] at h
+  | some d => simp [hd] at h; subst h; exact ⟨rfl, rfl, rfl⟩
+
+/-- replacing the entries named like `x` by `x'` (same name, value, type as the found entry) keeps
+    every own value, provided the keys of `cur` are pairwise different -/
+theorem holds_setQual {cur : List Qual} {q x x' : Qual}
+    (hpw : List.Pairwise (fun a b => ieq a.name b.name = false) cur)
+    (hx : x ∈ cur) (hn : x'.name = x.name) (hv : x'.val = x.val) (ht : x'.ty = x.ty)
+    (h : Holds cur q) : Holds (setQual cur x') q := by
+  obtain ⟨q', hq', hi, hval, hty⟩ := h
+  by_cases hsame : ieq q'.name x'.name = true
+  · -- q' is the replaced entry itself
+    have hqx : q' = x := by
+      apply Classical.byContradiction
+      intro hne
+      rw [hn] at hsame
+      rcases List.mem_iff_append.mp hx with ⟨l1, l2, rfl⟩
+      simp only [List.mem_append, List.mem_cons] at hq'
+      rw [List.pairwise_append] at hpw
+      obtain ⟨h1, h2, h3⟩ := hpw
+      rw [List.pairwise_cons] at h2
+      rcases hq' with hq' | rfl | hq'
+      · have := h3 q' hq' x (by simp); simp [hsame] at this
+      · exact hne rfl
+      · have := h2.1 q' hq'; simp [ieq_symm hsame] at this
+    subst hqx
+    refine ⟨x', ?_, by rw [hn]; exact hi, by rw [hv]; exact hval, by rw [ht]; exact hty⟩
+    simp only [setQual, List.mem_map]
+    exact ⟨q', hq', by simp [hsame]⟩
+  · refine ⟨q', ?_, hi, hval, hty⟩
+    simp only [setQual, List.mem_map]
+    exact ⟨q', hq', by simp [hsame]⟩
+
+theorem pairwise_of_lnames : ∀ (l l' : List Qual), l.map lname = l'.map lname →
+    List.Pairwise (fun a b => ieq a.name b.name = false) l →
+    List.Pairwise (fun a b => ieq a.name b.name = false) l' := by
+  intro l
+  induction l with
+  | nil => intro l' h _; cases l' <;> simp_all
+  | cons a l ih =>
+    intro l' h hp
+    cases l' with
+    | nil => simp at h
+    | cons b l' =>
+      simp only [List.map_cons, List.cons.injEq] at h
+      obtain ⟨hab, hll⟩ := h
+      rw [List.pairwise_cons] at hp ⊢
+      refine ⟨?_, ih l' hll hp.2⟩
+      intro y hy
+      have : lname y ∈ l'.map lname := List.mem_map.mpr ⟨y, hy, rfl⟩
+      rw [← hll] at this
+      obtain ⟨y0, hy0, hk⟩ := List.mem_map.mp this
+      have h0 := hp.1 y0 hy0
+      simp only [ieq, lname] at *
+      rw [← hab, ← hk]; exact h0
+
+theorem setQual_pairwise {cur : List Qual} {x' : Qual}
+    (hpw : List.Pairwise (fun a b => ieq a.name b.name = false) cur) :
+    List.Pairwise (fun a b => ieq a.name b.name = false) (setQual cur x') :=
+  pairwise_of_lnames cur _ (setQual_lnames cur x').symm hpw
+
+theorem findQual_some_mem {l : List Qual} {n : Name} {q : Qual} (h : findQual l n = some q) : q ∈ l := by
+  unfold findQual at h; exact List.mem_of_find?_eq_some h
+
+theorem holds_mono {cur cur' : List Qual} {q : Qual} (hsub : ∀ y ∈ cur, y ∈ cur') (h : Holds cur q) :
+    Holds cur' q := by
+  obtain ⟨q', hq', rest⟩ := h; exact ⟨q', hsub q' hq', rest⟩
+
+/-- one iteration of the inherit loop keeps the keys pairwise different and every own value -/
+theorem inheritStep_inv {decls : List QDecl} {cur cur' : List Qual} {inh : Qual} {own : List Qual}
+    (h : inheritStep decls cur inh = .ok cur')
+    (hpw : List.Pairwise (fun a b => ieq a.name b.name = false) cur)
+    (hown : ∀ q ∈ own, Holds cur q) :
+    List.Pairwise (fun a b => ieq a.name b.name = false) cur' ∧ ∀ q ∈ own, Holds cur' q := by
+  unfold inheritStep at h
+  cases hf : findQual cur inh.name with
+  | none =>
+    have hq := hasQual_false_iff'.mp (findQual_none_iff.mp hf)
+    simp only [hf] at h
+    by_cases ht : truthy inh.tosub = true
+    · simp [ht] at h; subst h
+      refine ⟨?_, fun q hq' => holds_mono (fun y hy => by simp [hy]) (hown q hq')⟩
+      rw [List.pairwise_append]
+      refine ⟨hpw, by simp, ?_⟩
+      intro a ha b hb
+      simp at hb; subst hb
+      exact hq a ha
+    · simp [ht] at h; subst h; exact ⟨hpw, hown⟩
+  | some x =>
+    have hx := findQual_some_mem hf
+    simp only [hf] at h
+    have key : ∀ x', x'.name = x.name → x'.val = x.val → x'.ty = x.ty →
+        .ok (setQual cur x') = (Except.ok cur' : Except PyExc (List Qual)) →
+        List.Pairwise (fun a b => ieq a.name b.name = false) cur' ∧ ∀ q ∈ own, Holds cur' q := by
+      intro x' hn hv ht hq'
+      injection hq' with hq'; subst hq'
+      exact ⟨setQual_pairwise hpw, fun q hq => holds_setQual hpw hx hn hv ht (hown q hq)⟩
+    split at h
+    · split at h
+      · cases hi : initQual decls x with
+        | error e => simp [hi] at h
+        | ok x' =>
+          simp only [hi] at h
+          obtain ⟨a, b, c⟩ := initQual_val hi
+          exact key x' a b c h
+      · split at h
+        · simp at h
+        · cases hi : initQual decls x with
+          | error e => simp [hi] at h
+          | ok x' =>
+            simp only [hi] at h
+            obtain ⟨a, b, c⟩ := initQual_val hi
+            exact key { x' with propagated := some true } a b c h
+    · split at h
+      · cases hi : initQual decls x with
+        | error e => simp [hi] at h
+        | ok x' =>
+          simp only [hi] at h
+          obtain ⟨a, b, c⟩ := initQual_val hi
+          exact key x' a b c h
+      · simp at h
+
+theorem inheritFold_inv {decls : List QDecl} {own : List Qual} :
+    ∀ (rest cur r : List Qual), foldE (inheritStep decls) cur rest = .ok r →
+      List.Pairwise (fun a b => ieq a.name b.name = false) cur → (∀ q ∈ own, Holds cur q) →
+      ∀ q ∈ own, Holds r q
+  | [], cur, r, h, _, hown => by simp [foldE] at h; subst h; exact hown
+  | inh :: rest, cur, r, h, hpw, hown => by
+    simp only [foldE] at h
+    cases hs : inheritStep decls cur inh with
+    | error e => simp [hs] at h
+    | ok cur' =>
+      simp only [hs] at h
+      obtain ⟨hpw', hown'⟩ := inheritStep_inv hs hpw hown
+      exact inheritFold_inv rest cur' r h hpw' hown'
+
+theorem mapE_ok_fwd {α β : Type} {f : α → Except PyExc β} :
+    ∀ {l : List α} {r : List β}, mapE f l = .ok r → ∀ a ∈ l, ∃ b ∈ r, f a = .ok b
+  | [], r, h, a, ha => by simp at ha
+  | x :: xs, r, h, a, ha => by
+    simp only [mapE] at h
+    cases hfx : f x with
+    | error e => simp [hfx] at h
+    | ok b0 =>
+      cases hm : mapE f xs with
+      | error e => simp [hfx, hm] at h
+      | ok bs =>
+        simp [hfx, hm] at h; subst h
+        simp at ha
+        rcases ha with rfl | ha
+        · exact ⟨b0, by simp, hfx⟩
+        · obtain ⟨b, hb, hfb⟩ := mapE_ok_fwd hm a ha
+          exact ⟨b, by simp [hb], hfb⟩
+
+/-- **the nearest declaration wins**: every qualifier the overriding element declares itself is
+    present in the resolved dictionary with its own value and type (keys of `own` pairwise different) -/
+theorem resolveQuals_own_wins {decls : List QDecl} {own inh r : List Qual}
+    (hpw : List.Pairwise (fun a b => ieq a.name b.name = false) own)
+    (h : resolveQuals decls own inh true = .ok r) : ∀ q ∈ own, Holds r q := by
+  unfold resolveQuals at h
+  simp only [Bool.not_true, Bool.false_eq_true, if_false] at h
+  cases h1 : mapE (fun q => if hasQual inh q.name then .ok q else initQual decls q) own with
+  | error e => simp [h1] at h
+  | ok q1 =>
+    simp only [h1] at h
+    have hn : q1.map lname = own.map lname := by
+      apply mapE_ok_map lname lname _ h1
+      intro a b hab
+      by_cases hq : hasQual inh a.name = true
+      · simp [hq] at hab; subst hab; rfl
+      · simp [hq] at hab; simp [lname, (initQual_name hab).1]
+    have hpw1 := pairwise_of_lnames own q1 hn.symm hpw
+    have hown1 : ∀ q ∈ own, Holds q1 q := by
+      intro q hq
+      obtain ⟨b, hb, hfb⟩ := mapE_ok_fwd h1 q hq
+      by_cases hq' : hasQual inh q.name = true
+      · simp [hq'] at hfb; subst hfb; exact ⟨q, hb, ieq_refl _, rfl, rfl⟩
+      · simp [hq'] at hfb
+        obtain ⟨a1, a2, a3⟩ := initQual_val hfb
+        exact ⟨b, hb, by rw [a1]; exact ieq_refl _, a2, a3⟩
+    exact inheritFold_inv inh q1 r h hpw1 hown1
+
 end Proofs.Resolve
